@@ -47,19 +47,23 @@ Record same (w w' : world) : Prop := mkSame {
   sm_sleep : forall t, sleep_of w' t = sleep_of w t; sm_coll : forall c, open_coll w' c = open_coll w c;
   sm_colls : map fst (collectors w') = map fst (collectors w);
   sm_done : forall t, done_sleep w' t = done_sleep w t;
-  sm_ne : ne_ready w' = ne_ready w }.
+  sm_ne : ne_ready w' = ne_ready w;
+  sm_now : now w' = now w;
+  sm_ready : exists l, ready w' = ready w ++ l /\ Forall (fun r => fst r = None) l }.
 
-Lemma same_refl w : same w w. Proof. constructor; reflexivity. Qed.
+Lemma same_refl w : same w w. Proof. constructor; try reflexivity. exists []. rewrite app_nil_r. split; [reflexivity|constructor]. Qed.
 Lemma same_trans a b c : same a b -> same b c -> same a c.
 Proof.
-  intros [A1 A2 A3 A4 A5 A6 A7 A8 A9 A10] [B1 B2 B3 B4 B5 B6 B7 B8 B9 B10]. constructor; try congruence; intros; rewrite ?B5, ?B6, ?B7, ?B9; auto.
+  intros [A1 A2 A3 A4 A5 A6 A7 A8 A9 A10 A11 (l1 & A12 & A13)] [B1 B2 B3 B4 B5 B6 B7 B8 B9 B10 B11 (l2 & B12 & B13)].
+  constructor; try congruence; try (intros; rewrite ?B5, ?B6, ?B7, ?B9; auto; fail).
+  exists (l1 ++ l2). rewrite B12, A12, app_assoc. split; [reflexivity|apply Forall_app; auto].
 Qed.
 Lemma same_tided w w' : same w w' -> tided w' = tided w.
-Proof. intros [A1 A2 _ _ _ _ _ _ _ _]. unfold tided, tmr. rewrite A1, A2. reflexivity. Qed.
+Proof. intros [A1 A2 _ _ _ _ _ _ _ _ _ _]. unfold tided, tmr. rewrite A1, A2. reflexivity. Qed.
 
 Lemma same_G X w w' : same w w' -> GP X w -> GP X w'.
 Proof.
-  intros Hs [H1 H2 H3 H4 H5 H6 H7 H8 H9]. pose proof (same_tided _ _ Hs) as Ht. destruct Hs as [A1 A2 A3 A4 A5 A6 A7 A8 A9 A10].
+  intros Hs [H1 H2 H3 H4 H5 H6 H7 H8 H9]. pose proof (same_tided _ _ Hs) as Ht. destruct Hs as [A1 A2 A3 A4 A5 A6 A7 A8 A9 A10 A11 A12].
   constructor; rewrite ?Ht, ?A3, ?A4; try assumption.
   - intros st a k tid. rewrite A5. apply H3.
   - intros st a. rewrite A5. apply H4.
@@ -87,7 +91,7 @@ Lemma keeps_fold {Y} (f : world -> Y -> world) l : (forall x, keeps (fun w => f 
 Proof. intros H. induction l as [|x l IH]; intros X w Hg; cbn [fold_left]; [exact Hg|]. apply IH. apply (H x). exact Hg. Qed.
 
 (* ------------------------------------------------------------------ neutral primitives *)
-Ltac triv_same := constructor; intros; reflexivity.
+Ltac triv_same := constructor; intros; try reflexivity; exists []; rewrite app_nil_r; split; [reflexivity|constructor].
 Lemma n_emit e : neutral (emit e). Proof. intros w. triv_same. Qed.
 Lemma n_set_sess s : neutral (set_sess s). Proof. intros w. triv_same. Qed.
 Lemma n_set_draws s : neutral (set_draws s). Proof. intros w. triv_same. Qed.
@@ -100,7 +104,9 @@ Lemma n_set_disc_task s : neutral (set_disc_task s). Proof. intros w. triv_same.
 Lemma n_set_ann_started s : neutral (set_ann_started s). Proof. intros w. triv_same. Qed.
 Lemma n_set_announcing s : neutral (set_announcing s). Proof. intros w. triv_same. Qed.
 Lemma n_set_queues s : neutral (set_queues s). Proof. intros w. triv_same. Qed.
-Lemma n_set_now s : neutral (set_now s). Proof. intros w. triv_same. Qed.
+(* moving the clock changes nothing the ownership invariants read *)
+Lemma GP_set_now X t w : GP X w -> GP X (set_now t w).
+Proof. intros [H1 H2 H3 H4 H5 H6 H7 H8 H9]. constructor; assumption. Qed.
 
 Lemma rdy_app (l1 l2 : list (option N * handle)) w :
   rdy (set_ready (l1 ++ l2) w) = rdy (set_ready l1 w) ++ rdy (set_ready l2 w).
@@ -110,6 +116,7 @@ Proof.
   intros Hn w. constructor; try reflexivity.
   - unfold call_soon, rdy. cbn [ready set_ready]. rewrite flat_map_app. cbn. rewrite app_nil_r. reflexivity.
   - unfold call_soon, ne_ready. cbn [ready set_ready]. rewrite forallb_app. cbn. rewrite Hn, !andb_true_r. reflexivity.
+  - exists [(None, h)]. split; [reflexivity|constructor; [reflexivity|constructor]].
 Qed.
 Lemma n_id : neutral (fun w => w). Proof. intros w. apply same_refl. Qed.
 
@@ -776,7 +783,7 @@ Qed.
 
 Lemma n_put_inst i ins' w ins : get_inst i w = Some ins -> in_subs ins' = in_subs ins -> same w (put_inst i ins' w).
 Proof.
-  intros Hget Hs. constructor; try reflexivity. intros st a. destruct st as [|j]; [reflexivity|].
+  intros Hget Hs. constructor; try reflexivity; [|exists []; rewrite app_nil_r; split; [reflexivity|constructor]]. intros st a. destruct st as [|j]; [reflexivity|].
   unfold get_store, put_inst. cbn [insts set_insts]. destruct (N.eqb_spec j i) as [->|Hne].
   - rewrite (aget_aset_same N.eqb N.eqb_eq). unfold get_inst in Hget. rewrite Hget, Hs. reflexivity.
   - rewrite (aget_aset_other N.eqb N.eqb_eq) by exact Hne. reflexivity.
@@ -1270,7 +1277,7 @@ Proof.
   destruct (ready w) as [|x r] eqn:Er; [destruct arrived as [|a ar]; [destruct dn|]|];
     try (apply IH; apply G_iteration; exact Hg).
   destruct (omin _ _) as [t|]; [|exact Hg]. destruct (t_end <? t); [exact Hg|].
-  apply IH. eapply same_G; [apply n_set_now|exact Hg].
+  apply IH. apply GP_set_now. exact Hg.
 Qed.
 
 From PS Require Import Model.StackIO.
